@@ -227,13 +227,23 @@ theorem lookup_std (s : List Char) :
 
 theorem intElem_ok (id : List Char) (n : Int) (h0 : 0 ≤ n) (h1 : n ≤ 255) :
     intElem std id n = .ok (id ++ std.ext ++ natDigits n.toNat) := by
-  unfold intElem
-  rw [if_neg (by omega)]
+  cases n with
+  | ofNat k =>
+    simp only [Int.ofNat_eq_natCast] at h0 h1 ⊢
+    simp only [intElem]
+    rw [if_neg (by omega)]
+    rfl
+  | negSucc k => omega
 
 theorem intElem_err (id : List Char) (n : Int) (h : n < 0 ∨ n > 255) :
     intElem std id n = .error .valueError := by
-  unfold intElem
-  rw [if_pos h]
+  cases n with
+  | ofNat k =>
+    simp only [Int.ofNat_eq_natCast] at h
+    simp only [intElem]
+    rw [if_pos (by omega)]
+  | negSucc k => rfl
+
 theorem seqElement_str (b : Bool) (s : List Char) :
     seqElement std b (.str s) =
       match wantedColour (.str s) with
@@ -324,4 +334,79 @@ theorem wantedColour_wf (c : ColorSpec) (col : Colour) (h : wantedColour c = som
           · simp at h
       · simp at h
 
+/-! the colour grammar, spelled out -/
+theorem nameIndex_isSome (l : List (List Char)) (s : List Char) :
+    (nameIndex l s).isSome = true ↔ s ∈ l := by
+  induction l with
+  | nil => simp [nameIndex]
+  | cons n l ih =>
+    simp only [nameIndex, List.mem_cons]
+    by_cases h : n = s
+    · simp [h]
+    · simp only [if_neg h, Option.isSome_map, ih]
+      constructor
+      · exact Or.inr
+      · rintro (h' | h')
+        · exact absurd h'.symm h
+        · exact h'
+
+theorem wantedColour_domain (c : ColorSpec) :
+    (wantedColour c).isSome = true ↔
+      c = .none ∨ (∃ s ∈ stdNames, c = .str s) ∨ (∃ n : Int, 0 ≤ n ∧ n ≤ 255 ∧ c = .int n) ∨
+      (∃ r g b : Int, (0 ≤ r ∧ r ≤ 5 ∧ 0 ≤ g ∧ g ≤ 5 ∧ 0 ≤ b ∧ b ≤ 5) ∧ c = .tuple [r, g, b]) ∨
+      (∃ ds n, parseDec ds = some n ∧ n ≤ 23 ∧ c = .str ('g' :: ds)) := by
+  cases c with
+  | none => simp [wantedColour]
+  | other => simp [wantedColour]
+  | int n =>
+    simp only [wantedColour]
+    by_cases h : 0 ≤ n ∧ n ≤ 255
+    · simp [h]
+    · simp [h]
+  | tuple xs =>
+    match xs with
+    | [] | [_] | [_, _] | _ :: _ :: _ :: _ :: _ => simp [wantedColour]
+    | [r, g, b] =>
+      simp only [wantedColour]
+      by_cases h : 0 ≤ r ∧ r ≤ 5 ∧ 0 ≤ g ∧ g ≤ 5 ∧ 0 ≤ b ∧ b ≤ 5
+      · simp only [if_pos h, Option.isSome_some, true_iff]
+        exact Or.inr (Or.inr (Or.inr (Or.inl ⟨r, g, b, h, rfl⟩)))
+      · simp only [if_neg h, Option.isSome_none, Bool.false_eq_true, false_iff]
+        rintro (h' | ⟨_, _, h'⟩ | ⟨_, _, _, h'⟩ | ⟨r', g', b', h', he⟩ | ⟨_, _, _, _, h'⟩)
+        · cases h'
+        · cases h'
+        · cases h'
+        · simp at he
+          obtain ⟨rfl, rfl, rfl⟩ := he
+          exact h h'
+        · cases h'
+  | str s =>
+    simp only [wantedColour]
+    cases hn : nameIndex stdNames s with
+    | some k =>
+      have : s ∈ stdNames := (nameIndex_isSome stdNames s).mp (by simp [hn])
+      simp [this]
+    | none =>
+      have hs : s ∉ stdNames := fun h => by
+        have := (nameIndex_isSome stdNames s).mpr h
+        simp [hn] at this
+      simp only [reduceCtorEq, false_or, ColorSpec.str.injEq, exists_eq_right', hs]
+      split
+      · rename_i rest
+        cases hp : parseDec rest with
+        | none =>
+          simp
+          intro ds n h1 _ h2
+          subst h2; simp [hp] at h1
+        | some n =>
+          by_cases h23 : n ≤ 23
+          · simp [h23]
+            exact ⟨rest, n, hp, h23, rfl⟩
+          · simp [h23]
+            intro ds m h1 h2 h3
+            subst h3; simp [hp] at h1; omega
+      · rename_i hg
+        simp
+        intro ds n _ _ h
+        exact hg ds h
 end Sgr
